@@ -3,8 +3,11 @@
 Soundness rule: stay inside the domain the property states (valid schemas, conforming
 data whose normal form is unambiguous).  See DESIGN.md 3.5 and the per-property guards.
 """
+import array
+import collections
 import math
 import struct
+import types
 
 import refavro
 
@@ -323,7 +326,8 @@ BIG_F32 = struct.unpack("<f", b"\xff\xff\x7f\x7f")[0]
 
 class DataGen:
     def __init__(self, ch, hints=False, omit_defaults=True, tuples=True, max_len=4,
-                 big_collections=True, long_strings=(63, 64, 65, 200, 8192), huge=False, deep=False):
+                 big_collections=True, long_strings=(63, 64, 65, 200, 8192), huge=False, deep=False,
+                 exotic=False):
         self.ch = ch
         self.hints = hints
         self.omit_defaults = omit_defaults
@@ -335,6 +339,7 @@ class DataGen:
         self.huge = huge      # size profile: length varints of 3 and 4 bytes, collections of thousands
         self.deep = deep      # recursion depth up to ~40 instead of ~6
         self.huge_left = 2    # at most two huge leaves per generator (keeps a run in the 10 ms range)
+        self.exotic = exotic  # other conforming Python types: Mapping / int subclasses, array.array, OrderedDict
         self.budget = 4000    # nodes per generator: stops exponential growth of multiply-recursive types
         self.probes = {}
 
@@ -450,6 +455,12 @@ class DataGen:
             return ch.pick([64, 65, 70])
         return 1 + ch.draw(self.max_len)
 
+    def _mapping(self, d):
+        if self.exotic and self.ch.chance(15):
+            self._p("mapping_not_dict")
+            return collections.OrderedDict(d) if self.ch.draw(2) else types.MappingProxyType(d)
+        return d
+
     def _has_float(self, n, depth=0, seen=()):
         """Does a value of node n possibly contain a 'float' leaf?"""
         n = refavro.deref(n)
@@ -494,9 +505,11 @@ class DataGen:
         if k == "boolean":
             return bool(ch.draw(2))
         if k == "int":
-            return self.integer(refavro.INT_MIN, refavro.INT_MAX, small=bool({"float", "double"} & set(union_kinds)))
+            v = self.integer(refavro.INT_MIN, refavro.INT_MAX, small=bool({"float", "double"} & set(union_kinds)))
+            return IntSub(v) if self.exotic and ch.chance(20) else v
         if k == "long":
-            return self.integer(refavro.LONG_MIN, refavro.LONG_MAX, small=bool({"float", "double"} & set(union_kinds)))
+            v = self.integer(refavro.LONG_MIN, refavro.LONG_MAX, small=bool({"float", "double"} & set(union_kinds)))
+            return IntSub(v) if self.exotic and ch.chance(20) else v
         if k == "float":
             return self.f32()
         if k == "double":
@@ -517,6 +530,9 @@ class DataGen:
             if ln > 64 and refavro.deref(n.items).k in ("record", "array", "map", "union"):
                 ln = 64 + ln % 7    # thousands of items only for leaf item types
             items = [self.datum(n.items, depth + 1) for _ in range(ln)]
+            if self.exotic and refavro.deref(n.items).k == "long" and ch.chance(30):
+                self._p("array_as_array_array")
+                return array.array("q", [int(x) for x in items])
             if self.tuples and not in_union and ch.chance(10):
                 self._p("array_as_tuple")
                 return tuple(items)
@@ -532,7 +548,7 @@ class DataGen:
             for i in range(ln):
                 key = ch.pick(["k", "", "é", "key"]) + str(i)
                 out[key] = self.datum(n.values, depth + 1)
-            return out
+            return self._mapping(out)
         if k == "union":
             kinds = [refavro.deref(b).k for b in n.branches]
             if depth > (40 if self.deep else 5) and "null" in kinds:
@@ -547,10 +563,11 @@ class DataGen:
             self._p(f"union_branch_{min(i, 3)}")
             b = refavro.deref(n.branches[i])
             saved = self.f32_safe
-            if b.k == "double":
-                # a direct 'double' branch always wins for a Python float (documented): free doubles
-                self.f32_safe = False
-            elif not saved and any(self._has_float(o) for j, o in enumerate(n.branches) if j != i):
+            if saved:
+                pass   # an enclosing union already demands binary32-exact values
+            elif b.k == "double":
+                pass   # a direct 'double' branch always wins for a Python float (documented): free doubles
+            elif any(self._has_float(o) for j, o in enumerate(n.branches) if j != i):
                 self.f32_safe = True
             try:
                 v = self.datum(b, depth + 1, in_union=True, union_kinds=kinds)
@@ -573,8 +590,12 @@ class DataGen:
                 out[f.name] = self.datum(f.type, depth + 1)
             if depth >= 3:
                 self._p("record_depth_ge3")
-            return out
+            return self._mapping(out)
         raise ValueError(k)
+
+
+class IntSub(int):
+    """An int subclass (numpy-like integer scalars behave this way)."""
 
 
 def zero_byte_schema():
